@@ -4,6 +4,7 @@ import GenlmModel.Proofs.Cky
 import GenlmModel.Proofs.Tab
 import GenlmModel.Proofs.Fast
 import GenlmModel.Proofs.IncCky
+import GenlmModel.Proofs.EarleyQ
 /-! # C02 — every parser returns the derivation-sum weight of a string
 Headline statements only (proofs live in `Proofs/`).  `WN G n X x` is the sum of the weights of the
 derivation trees of height ≤ n of `x` from `X`; all statements hold in EVERY commutative semiring
@@ -58,5 +59,16 @@ alias incremental_cky_call := Genlm.incCky_call
 /-- model of `CFG._parse_chart` (what `cfg(x)` runs on the normal form) -/
 alias parse_chart_is_derivation_sum := Genlm.cfgParse_eq_WN
 alias parse_chart_eq_incremental := Genlm.cfgParse_eq_incCkyCall
+
+/-- EARLEY: the model of `Earley.next_column`/`PREDICT`/`_update` with the agenda as a priority queue (any pop among the
+maximal-priority items), on a grammar without nullary rules and unary cycles with a topological `order`, returns the
+derivation sum — every tie-breaking of the heap included -/
+alias earley_correct := Genlm.earleyQ_correct
+alias earley_correct_fixed_schedule := Genlm.earley_correct
+alias earley_any_admissible_schedule := Genlm.earley_correct_sched
+/-- the priority expression generated from the source yields an admissible schedule -/
+alias earley_priority_schedule_ok := Genlm.EarleyAux.schedule_ok
+/-- for such grammars the derivation sum is a finite sum, reached at level |x|·M + 1 -/
+alias derivation_sum_finite := Genlm.WN_stable
 
 end Genlm.Props.C02
